@@ -401,6 +401,99 @@ theorem C15_no_orphan_per_connection (T : Tree) (h : T.WF) (ops : List MOp) (k :
     NoOrphan T ((mrun T ops MState.init).cur k) :=
   (mrun_preserves h ops MState.init (fun _ => ⟨noOrphan_empty T, noOrphan_empty T⟩) k).1
 
+/-! ### a committed transaction is seen through instances the main connection had already loaded
+
+The main connection's instances cache their level's column values; `Transaction.commit` expires
+the main-side instance of every (class, id) in the transaction's cache and deleted log.  A fetch
+inside the transaction registers the instance AND its whole `_parent` chain (`txLevels`), so every
+level an inherited attribute can be stored at is expired, and every level reads the row again. -/
+
+/-- with coherent level caches an attribute read through an instance is the declaring row's value -/
+theorem C15_cached_read_is_row (T : Tree) (db : DB) (vc : VCache) (hc : Coherent db vc) (m i a k : Nat) :
+    readCached T db vc m i a k = readInst T db m i a k :=
+  readCached_coherent hc m i a k
+
+/-- one transaction writes an (own or inherited) attribute of one object and destroys another
+    object; the commit expires at least every level of both chains: afterwards the main
+    connection's caches agree with the rows at every level, and the written attribute reads the
+    new value through the already-loaded instance, whichever level it is fetched through -/
+theorem C15_commit_after_write_and_destroy_coherent (T : Tree) (h : T.WF) (db : DB) (inv : NoOrphan T db)
+    (vc : VCache) (hc : Coherent db vc)
+    (e i m a k : Nat) (v : Val) (hget : get T db e i = .ok m) (hattr : attrOK T m a k = true)
+    (e2 i2 m2 : Nat) (hget2 : get T (writeVia T db e i a k v).1 e2 i2 = .ok m2) (hne : i2 ≠ i ∨ T.root e2 ≠ T.root e)
+    (S : Nat → Nat → Bool)
+    (hS : ∀ x j, (txLevels T m i x j || txLevels T m2 i2 x j) = true → S x j = true) :
+    let db2 := (destroyVia T (writeVia T db e i a k v).1 e2 i2).1
+    Coherent db2 (commitExpire vc S) ∧
+    (∀ e', e' ∈ T.anc m → get T db2 e' i = .ok m) ∧
+    readCached T db2 (commitExpire vc S) m i a k = some v := by
+  intro db2
+  obtain ⟨db1, hw, hother, ⟨r, r', hr, hr', _, hvals⟩, _⟩ :=
+    C15_inherited_attr_single_store T h db inv e i m a k v hget hattr
+  have hdb1 : (writeVia T db e i a k v).1 = db1 := by rw [hw]
+  have inv1 : NoOrphan T db1 := by
+    have := C15_step_preserves_no_orphan T h db inv (.write e i a k v)
+    simpa [step, hw] using this
+  rw [hdb1] at hget2
+  obtain ⟨db2', hd, hgone, hkeep, inv2⟩ := C15_destroy_removes_all_levels T h db1 inv1 e2 i2 m2 hget2
+  have hdb2 : db2 = db2' := by show (destroyVia T (writeVia T db e i a k v).1 e2 i2).1 = db2'; rw [hdb1, hd]
+  have ham : a ∈ T.anc m := by
+    simp only [attrOK, Bool.and_eq_true, List.contains_iff_mem] at hattr; exact hattr.1
+  obtain ⟨hleaf, hem, _⟩ := get_ok_inv h inv hget
+  obtain ⟨_, hem2, _⟩ := get_ok_inv h inv1 hget2
+  -- rows outside S are untouched by the whole transaction
+  have hsame : ∀ x j, S x j = false → db2 x j = db x j := by
+    intro x j hs
+    have h1 : ¬ (j = i ∧ x ∈ T.anc m) := by
+      rintro ⟨rfl, hx⟩
+      have := hS x j (by simp [txLevels, hx])
+      rw [hs] at this; cases this
+    have h2 : ¬ (j = i2 ∧ x ∈ T.anc m2) := by
+      rintro ⟨rfl, hx⟩
+      have := hS x j (by simp [txLevels, hx])
+      rw [hs] at this; cases this
+    have e1 : db1 x j = db x j := hother x j (by
+      by_cases hx : x = a
+      · subst hx; right; intro hj; exact h1 ⟨hj, ham⟩
+      · left; exact hx)
+    have hw' : Extracted.destroyWalksParents = true := rfl
+    have e2' : db2 x j = db1 x j := by
+      rw [hdb2]
+      have : db2' = destroyInst T db1 m2 i2 := by
+        have := hd; simp only [destroyVia, hget2] at this; exact (Prod.mk.inj this).1.symm
+      rw [this]
+      simp only [destroyInst, hw', destroyG_spec, if_neg h2]
+    rw [e2', e1]
+  refine ⟨commitExpire_coherent hc S hsame, ?_, ?_⟩
+  · intro e' he'
+    -- the written object is not the destroyed one: its rows survive, with the same tags
+    have hkeep' : ∀ c, c ∈ T.anc m → db2 c i = db1 c i := by
+      intro c hc'
+      rw [hdb2]
+      apply hkeep
+      rcases hne with hne | hne
+      · left; exact fun hh => hne hh.symm
+      · right; intro hh
+        exact hne (hh.symm.trans ((root_of_mem h m c hc').trans (root_of_mem h m e hem).symm))
+    have hleaf1 : LeafRow db1 m i := by
+      obtain ⟨rm, hrm, hcm⟩ := hleaf
+      by_cases hma : m = a
+      · subst hma; rw [hr] at hrm; cases hrm
+        exact ⟨r', hr', by rw [‹r'.child = r.child›, hcm]⟩
+      · exact ⟨rm, by rw [hother m i (Or.inl hma)]; exact hrm, hcm⟩
+    have hleaf2 : LeafRow db2 m i := by
+      obtain ⟨rm, hrm, hcm⟩ := hleaf1
+      exact ⟨rm, by rw [hkeep' m (self_mem_anc h m)]; exact hrm, hcm⟩
+    exact get_of_leaf h (hdb2 ▸ inv2) hleaf2 he'
+  · rw [readCached_coherent (commitExpire_coherent hc S hsame)]
+    have : db2 a i = db1 a i := by
+      rw [hdb2]; apply hkeep
+      rcases hne with hne | hne
+      · left; exact fun hh => hne hh.symm
+      · right; intro hh
+        exact hne (hh.symm.trans ((root_of_mem h m a ham).trans (root_of_mem h m e hem).symm))
+    simp [readInst, hattr, this, hr', hvals]
+
 /-! ### the statements above in every reachable state -/
 
 /-- **C15 over histories**: after any history over any class tree, through every entry level:
@@ -452,6 +545,20 @@ example : [0, 1, 3].map (fun c => (deleteBy T0 db0 3 [(3, 0, 30)]).has c 1) = [f
 example : [0, 1, 5].map (fun c => (deleteMany T0 db0 0 (.attr 0 0 .eq 7)).has c 2) = [false, false, false] := by
   decide
 example : (deleteMany T0 db0 0 (.attr 0 0 .eq 7)).has 0 1 = true := by decide
+/-- the chain matters: the main connection has loaded the `K3` of id 1 (root-level values cached); a
+    transaction writes its inherited `K0` column 0; a commit that expires only the `K1` and `K3`
+    levels (the root-level ids lost) leaves the root-level cache disagreeing with the row -/
+example : ¬ Coherent (writeVia T0 db0 3 1 0 0 99).1
+    (commitExpire (fun a i => if a = 0 ∧ i = 1 then some (fun k => (k : Int)) else none) (fun a _ => a != 0)) := by
+  intro hc
+  obtain ⟨r, hr, hk⟩ := hc 0 1 (fun k => (k : Int)) (by simp [commitExpire])
+  have h0 := hk 0
+  have : ((writeVia T0 db0 3 1 0 0 99).1 0 1).map (fun r => r.vals 0) = some 99 := by decide
+  rw [hr] at this
+  simp at this
+  rw [this] at h0
+  exact absurd h0 (by decide)
+
 /-- … and so does a `destroySelf` that does not walk up to the parents -/
 example : ¬ NoOrphan T0 (destroyG false true T0 db0 3 1) := by
   intro inv
